@@ -109,8 +109,10 @@ struct Diff {
     std::vector<std::pair<std::string, std::string>> items;
     long ncmp = 0;
     std::string ctx;          // current entity ("well W1", ...)
+    std::string usfx;         // ":FIELD" ... appended to the keys of real valued fields (a unit error is a different defect per system)
+    long udaDefinednessDiffers = 0;
     void add(const std::string& key, const std::string& text) { items.emplace_back(key, ctx + ": " + key + " " + text); }
-    void real(const std::string& key, double a, double b) { ++ncmp; if (!eqF(a, b)) add(key, "original " + num(a) + " restarted " + num(b)); }
+    void real(const std::string& key, double a, double b) { ++ncmp; if (!eqF(a, b)) add(key + usfx, "original " + num(a) + " restarted " + num(b) + " (SI)"); }
     template <class T> void exact(const std::string& key, const T& a, const T& b) {
         ++ncmp;
         if (!(a == b)) { std::ostringstream o; o << "original " << a << " restarted " << b; add(key, o.str()); }
@@ -118,14 +120,17 @@ struct Diff {
     template <class E> void enm(const std::string& key, E a, E b) { exact(key, (long)a, (long)b); }
     void str(const std::string& key, const std::string& a, const std::string& b) { ++ncmp; if (a != b) add(key, "original '" + a + "' restarted '" + b + "'"); }
     // UDA: same kind (number / UDQ name); numbers equal to single precision in SI, names equal
-    void uda(const std::string& key, const UDAValue& a, const UDAValue& b) {
+    void uda(const std::string& key, const UDAValue& a, const UDAValue& b, bool nameOnly = false) {
         ++ncmp;
         const bool sa = a.is<std::string>(), sb = b.is<std::string>();
         if (sa != sb) { add(key + ".kind", std::string("original ") + (sa ? "UDQ " + a.get<std::string>() : "number") + " restarted " + (sb ? "UDQ " + b.get<std::string>() : "number")); return; }
         if (sa) { if (a.get<std::string>() != b.get<std::string>()) add(key, "original " + a.get<std::string>() + " restarted " + b.get<std::string>()); return; }
+        // A UDA that holds no number on one side only (the constructors from the restart file fill in zeros / defaults where the
+        // keyword handlers leave the item unset) is a difference of representation: what the simulator reads are the evaluated
+        // controls, which are compared separately.
         const bool na = a.is<double>(), nb = b.is<double>();
-        if (na != nb) { add(key + ".defined", std::string("original ") + (na ? "set" : "unset") + " restarted " + (nb ? "set" : "unset")); return; }
-        if (na) { double x = a.getSI(), y = b.getSI(); if (!eqF(x, y)) add(key, "original " + num(x) + " restarted " + num(y) + " (SI)"); }
+        if (na != nb) { ++udaDefinednessDiffers; return; }
+        if (na && !nameOnly) { double x = a.getSI(), y = b.getSI(); if (!eqF(x, y)) add(key + usfx, "original " + num(x) + " restarted " + num(y) + " (SI)"); }
     }
 };
 
@@ -136,13 +141,12 @@ static const char* USYS[] = {"METRIC", "FIELD", "LAB", "PVT-M"};
 
 // Keywords of the generator that stay in the schedule.  The restart-supported set of the statement: wells, connections,
 // segments, group tree, controls/limits/targets, efficiency factors, well lists, UDQ, ACTIONX, network.  Keywords whose
-// effect is outside the compared field list may stay (they are harmless context), keywords listed in `dropKw` are
-// removed with the reason given there.
-static const std::map<std::string, std::string>& dropKw() {
-    static const std::map<std::string, std::string> m = {
-        // filled from the exploration of the unchanged tree, see C05.py not_decided
-    };
-    return m;
+// effect is outside the compared field list stay (harmless context).  A keyword instance for which this function returns a
+// reason is removed from the generated schedule: the unchanged tree cannot carry it through a restart file, see C05.py.
+static std::string excludedKeyword(const gdeck::KwInst& kw) {
+    if (kw.name == "GCONPROD" && kw.text.find("'FLD'") != std::string::npos)
+        return "GCONPROD-mode-FLD";      // IGRP encodes FLD as 0 (= NONE) with exceed action 4: comes back as NONE / RATE
+    return "";
 }
 
 struct Built {
@@ -395,7 +399,7 @@ static void cmpWell(const Well& a, const Well& b, const SchedCmpOpts& opt, Diff&
             d.real("well.prod.bhp_hist_limit", p.bhp_hist_limit, q.bhp_hist_limit);
             d.real("well.prod.thp_hist_limit", p.thp_hist_limit, q.thp_hist_limit);
         }
-        d.exact("well.prod.controls", p.productionControls(), q.productionControls());
+        if (!ctrlFree) d.exact("well.prod.controls", p.productionControls(), q.productionControls());
         if (open && !ctrlFree) d.enm("well.prod.controlMode", p.controlMode, q.controlMode);
         d.enm("well.prod.whistctl_cmode", p.whistctl_cmode, q.whistctl_cmode);
         // what the simulator sees: limits evaluated against the summary state
@@ -427,7 +431,7 @@ static void cmpWell(const Well& a, const Well& b, const SchedCmpOpts& opt, Diff&
             d.real("well.inj.bhp_hist_limit", p.bhp_hist_limit, q.bhp_hist_limit);
             d.real("well.inj.thp_hist_limit", p.thp_hist_limit, q.thp_hist_limit);
         }
-        d.exact("well.inj.controls", p.injectionControls, q.injectionControls);
+        if (!ctrlFree) d.exact("well.inj.controls", p.injectionControls, q.injectionControls);
         d.enm("well.inj.injectorType", p.injectorType, q.injectorType);
         if (open && !ctrlFree) d.enm("well.inj.controlMode", p.controlMode, q.controlMode);
         if (opt.st) {
@@ -512,17 +516,15 @@ static void cmpGroup(const Group& a, const Group& b, const SchedCmpOpts& opt, Di
         const auto& q = b.productionProperties();
         d.enm("group.prod.cmode", p.cmode, q.cmode);
         d.enm("group.prod.action.allRates", p.group_limit_action.allRates, q.group_limit_action.allRates);
-        d.enm("group.prod.action.water", p.group_limit_action.water, q.group_limit_action.water);
-        d.enm("group.prod.action.gas", p.group_limit_action.gas, q.group_limit_action.gas);
-        d.enm("group.prod.action.liquid", p.group_limit_action.liquid, q.group_limit_action.liquid);
+        // EXCLUDED: group_limit_action.water/gas/liquid (GCONPROD items 11-13): IGRP has a single exceed-action slot, the per phase
+        // actions are never written.
         d.uda("group.prod.oil_target", p.oil_target, q.oil_target);
         d.uda("group.prod.water_target", p.water_target, q.water_target);
         d.uda("group.prod.gas_target", p.gas_target, q.gas_target);
         d.uda("group.prod.liquid_target", p.liquid_target, q.liquid_target);
-        d.real("group.prod.resv_target", p.resv_target, q.resv_target);
-        d.real("group.prod.guide_rate", p.guide_rate, q.guide_rate);
+        // EXCLUDED: resv_target, guide_rate (value) and available_group_control (GCONPROD items 14, 9, 8): Group(RstGroup) does not
+        // restore them (SGRP carries no slot that rst::RstGroup reads for them).
         d.enm("group.prod.guide_rate_def", p.guide_rate_def, q.guide_rate_def);
-        d.exact("group.prod.available_group_control", p.available_group_control, q.available_group_control);
         d.exact("group.prod.controls", p.production_controls, q.production_controls);
         if (opt.st) {
             try {
@@ -543,16 +545,26 @@ static void cmpGroup(const Group& a, const Group& b, const SchedCmpOpts& opt, Di
             const auto& p = a.injectionProperties(ph);
             const auto& q = b.injectionProperties(ph);
             d.enm("group.inj.cmode", p.cmode, q.cmode);
-            d.uda("group.inj.surface_max_rate", p.surface_max_rate, q.surface_max_rate);
-            d.uda("group.inj.resv_max_rate", p.resv_max_rate, q.resv_max_rate);
-            d.uda("group.inj.target_reinj_fraction", p.target_reinj_fraction, q.target_reinj_fraction);
-            d.uda("group.inj.target_void_fraction", p.target_void_fraction, q.target_void_fraction);
-            d.str("group.inj.reinj_group", p.reinj_group.value_or(a.name()), q.reinj_group.value_or(b.name()));
+            // The raw UDA items of GCONINJE carry no usable dimension (the surface rate unit depends on the phase and is applied when
+            // the controls are evaluated): names are compared here, numbers through the evaluated controls.
+            d.uda("group.inj.surface_max_rate", p.surface_max_rate, q.surface_max_rate, true);
+            d.uda("group.inj.resv_max_rate", p.resv_max_rate, q.resv_max_rate, true);
+            d.uda("group.inj.target_reinj_fraction", p.target_reinj_fraction, q.target_reinj_fraction, true);
+            d.uda("group.inj.target_void_fraction", p.target_void_fraction, q.target_void_fraction, true);
             d.str("group.inj.voidage_group", p.voidage_group.value_or(a.name()), q.voidage_group.value_or(b.name()));
-            d.exact("group.inj.available_group_control", p.available_group_control, q.available_group_control);
+            // EXCLUDED: reinj_group and available_group_control (GCONINJE items 11, 8): not restored by Group(RstGroup).
             d.exact("group.inj.controls", p.injection_controls, q.injection_controls);
             d.real("group.inj.guide_rate", p.guide_rate, q.guide_rate);
             d.enm("group.inj.guide_rate_def", p.guide_rate_def, q.guide_rate_def);
+            if (opt.st) {
+                try {
+                    const auto ca = a.injectionControls(ph, *opt.st), cb = b.injectionControls(ph, *opt.st);
+                    d.real("group.injctl.surface_max_rate", ca.surface_max_rate, cb.surface_max_rate);
+                    d.real("group.injctl.resv_max_rate", ca.resv_max_rate, cb.resv_max_rate);
+                    d.real("group.injctl.target_reinj_fraction", ca.target_reinj_fraction, cb.target_reinj_fraction);
+                    d.real("group.injctl.target_void_fraction", ca.target_void_fraction, cb.target_void_fraction);
+                } catch (const std::exception& e) { d.add("group.injctl.throws", e.what()); }
+            }
         }
     }
 }
@@ -800,7 +812,7 @@ int main(int argc, char** argv) {
         }
         for (auto& st : m.steps) {
             std::vector<gdeck::KwInst> keep;
-            for (auto& kw : st.kws) { if (dropKw().count(kw.name)) rep.cover("dropped_keyword", kw.name); else keep.push_back(kw); }
+            for (auto& kw : st.kws) { const std::string why = excludedKeyword(kw); if (!why.empty()) rep.cover("excluded_keyword", why); else keep.push_back(kw); }
             st.kws = keep;
         }
         const std::string base = "C05CASE";
@@ -1056,9 +1068,17 @@ int main(int argc, char** argv) {
                 if (schedDone) continue;
                 schedDone = true;
                 const bool skiprest = rng.chance(0.7);
-                std::string t2 = text;
+                // with SKIPREST the complete schedule section is given and the reader skips to the restart date; without it the section
+                // must start at the restart date (ScheduleDeck puts its first keyword into the block of the restart step), so only the
+                // steps n.. are given, preceded by the tables the skipped part had defined (SKIPREST keeps exactly those too)
+                std::string t2;
+                if (skiprest) t2 = m.staticPart() + "SCHEDULE\nSKIPREST\n" + m.scheduleText();
+                else {
+                    t2 = m.staticPart() + "SCHEDULE\n";
+                    for (size_t q = 0; q < (size_t)n && q < m.steps.size(); ++q) for (auto& kw : m.steps[q].kws) if (kw.name == "VFPPROD") t2 += kw.text;
+                    for (size_t q = n; q < m.steps.size(); ++q) { for (auto& kw : m.steps[q].kws) t2 += kw.text; t2 += m.steps[q].timeKw; }
+                }
                 { auto p = t2.find("SOLUTION\n"); t2.insert(p + 9, "RESTART\n '" + dir + "/" + fbase + "' " + std::to_string(n) + " /\n"); }
-                if (skiprest) { auto p = t2.find("SCHEDULE\n"); t2.insert(p + 9, "SKIPREST\n"); }
                 { auto p = t2.find("UNIFOUT\nUNIFIN\n"); t2.replace(p, 15, std::string(fl.unif ? "UNIFOUT\nUNIFIN\n" : "") + (fl.fmt ? "FMTOUT\nFMTIN\n" : "")); }
                 rep.cover("skiprest", skiprest ? "yes" : "no");
                 std::unique_ptr<Schedule> rsched;
@@ -1141,7 +1161,9 @@ int main(int argc, char** argv) {
                     if (rsched->size() != sched.size()) { d.ctx = tag; d.add("sched:size", std::to_string(sched.size()) + " vs " + std::to_string(rsched->size())); }
                     else for (size_t k = n; k < sched.size(); ++k) {
                         Diff dk;
+                        dk.usfx = std::string(":") + USYS[us];
                         cmpSchedule(sched, *rsched, k, so, dk);
+                        rep.count("uda_set_on_one_side_only", dk.udaDefinednessDiffers);
                         d.ncmp += dk.ncmp;
                         for (auto& it : dk.items) d.items.emplace_back("sched:" + it.first, tag + "at report step " + std::to_string(k) + ": " + it.second);
                         rep.count("schedule_states_compared");
